@@ -85,12 +85,43 @@ theorem decode_unkeyed {e : Elem} {j : JsonReq} {k : Str} (h : decode e = some j
   · rw [h0]; exact fun x => hk x.symm
   · intro heq; apply hu; rw [h1, heq]
 
+/-- pointwise relation of two lists (core-only stand-in for Mathlib's `List.Forall₂`) -/
+inductive All2 {α β : Type} (R : α → β → Prop) : List α → List β → Prop
+  | nil : All2 R [] []
+  | cons {a b as bs} : R a b → All2 R as bs → All2 R (a :: as) (b :: bs)
+
+theorem All2.imp {α β : Type} {R S : α → β → Prop} (f : ∀ a b, R a b → S a b) :
+    ∀ {as : List α} {bs : List β}, All2 R as bs → All2 S as bs
+  | _, _, .nil => .nil
+  | _, _, .cons h t => .cons (f _ _ h) (t.imp f)
+
+theorem All2.length_eq {α β : Type} {R : α → β → Prop} :
+    ∀ {as : List α} {bs : List β}, All2 R as bs → as.length = bs.length
+  | _, _, .nil => rfl
+  | _, _, .cons _ t => by simp [t.length_eq]
+
+theorem All2.get {α β : Type} {R : α → β → Prop} :
+    ∀ {as : List α} {bs : List β}, All2 R as bs → ∀ (i : Nat) (a : α) (b : β),
+      as[i]? = some a → bs[i]? = some b → R a b
+  | _, _, .nil, i, a, b, ha, _ => by simp at ha
+  | _, _, .cons h t, 0, a, b, ha, hb => by simp at ha hb; subst ha hb; exact h
+  | _, _, .cons _ t, i + 1, a, b, ha, hb => by simp at ha hb; exact t.get i a b ha hb
+
+theorem All2.mem_left {α β : Type} {R : α → β → Prop} :
+    ∀ {as : List α} {bs : List β}, All2 R as bs → ∀ b ∈ bs, ∃ a ∈ as, R a b
+  | _, _, .nil, b, hb => by simp at hb
+  | _, _, .cons h t, b, hb => by
+    rcases List.mem_cons.mp hb with rfl | hb'
+    · exact ⟨_, by simp, h⟩
+    · obtain ⟨a, ha, hr⟩ := t.mem_left b hb'
+      exact ⟨a, by simp [ha], hr⟩
+
 /-- relation between a batch element and the `rpcRequest` made of it -/
 def ElemRel (e : Elem) (r : RpcReq) : Prop :=
   ∃ j, decode e = some j ∧ j.id = .ok ∧ classify false j = .ok r
 
 theorem parseBatchLoop_rel : ∀ {js : List JsonReq} {rs : List RpcReq}, parseBatchLoop js = .ok rs →
-    List.Forall₂ (fun j r => j.id = .ok ∧ classify false j = .ok r) js rs
+    All2 (fun j r => j.id = .ok ∧ classify false j = .ok r) js rs
   | [], rs, h => by simp [parseBatchLoop] at h; subst h; exact .nil
   | j :: t, rs, h => by
     unfold parseBatchLoop at h
@@ -107,7 +138,7 @@ theorem parseBatchLoop_rel : ∀ {js : List JsonReq} {rs : List RpcReq}, parseBa
           exact .cons ⟨by simpa using hid, hr⟩ (parseBatchLoop_rel hrs)
 
 theorem decodeAll_rel : ∀ {es : List Elem} {js : List JsonReq}, decodeAll es = some js →
-    List.Forall₂ (fun e j => decode e = some j) es js
+    All2 (fun e j => decode e = some j) es js
   | [], js, h => by simp [decodeAll] at h; subst h; exact .nil
   | e :: t, js, h => by
     unfold decodeAll at h
@@ -118,19 +149,19 @@ theorem decodeAll_rel : ∀ {es : List Elem} {js : List JsonReq}, decodeAll es =
     · cases h
 
 theorem forall₂_comp {α β γ : Type} {P : α → β → Prop} {Q : β → γ → Prop} :
-    ∀ {as : List α} {bs : List β} {cs : List γ}, List.Forall₂ P as bs → List.Forall₂ Q bs cs →
-      List.Forall₂ (fun a c => ∃ b, P a b ∧ Q b c) as cs
+    ∀ {as : List α} {bs : List β} {cs : List γ}, All2 P as bs → All2 Q bs cs →
+      All2 (fun a c => ∃ b, P a b ∧ Q b c) as cs
   | _, _, _, .nil, .nil => .nil
   | _, _, _, .cons h1 t1, .cons h2 t2 => .cons ⟨_, h1, h2⟩ (forall₂_comp t1 t2)
 
 theorem parseBatch_rel {es : List Elem} {rs : List RpcReq} (h : parseBatch es = .ok rs) :
-    List.Forall₂ ElemRel es rs := by
+    All2 ElemRel es rs := by
   unfold parseBatch at h
   split at h
   · cases h
   · rename_i js hjs
     have := forall₂_comp (decodeAll_rel hjs) (parseBatchLoop_rel h)
-    exact this.imp (fun ⟨j, h1, h2, h3⟩ => ⟨j, h1, h2, h3⟩)
+    exact this.imp (fun _ _ ⟨j, h1, h2, h3⟩ => ⟨j, h1, h2, h3⟩)
 
 /-! ### the gate clause -/
 
@@ -181,7 +212,6 @@ theorem runElems_append (cfg : Cfg) : ∀ (st : St) (a b : List RpcReq),
   | st, r :: t, b => by
     simp only [List.cons_append, runElems]
     rw [runElems_append cfg _ t b]
-    rfl
 
 theorem elemStep_unkeyed {cfg : Cfg} {r : RpcReq} (st : St) (hk : cfg.apiKey ≠ []) (hu : r.key ≠ cfg.apiKey) :
     elemStep cfg st r = (st, .err (r.err.getD codeInvalidKey)) := by
